@@ -490,6 +490,10 @@ class SGen:
         r = self.rng
         nskip = r.choice([0, 0, 0, 1, 2]) if allow_skip else 0
         idx = self.indices(n)
+        if enc != "m" and n and r.random() < 0.12:
+            # array encoding: a field far out (the gap is filled with nulls), around the one-byte / two-byte array header boundary
+            cand = r.choice([22, 23, 24, 30, 255, 256])
+            if cand not in idx: idx[idx.index(max(idx))] = max(cand, max(idx))
         if enc == "m" and n and r.random() < 0.3:
             # map encoding: index keys at the head-width boundaries
             big = [23, 24, 255, 256, 65535, 65536, 2**32 - 1]
@@ -585,6 +589,12 @@ def core_schemas(rng):
     S.append(t_st([F(2, t_int("u8")), F(0, t_bool()), F(1, o8())], shape="p"))
     S.append(t_st([F(5, o8()), F(1, o8()), F(9, o8())], enc="m"))
     S.append(t_st([F(0, o8()), F(1, o8()), F(2, o8())]))                       # trailing None trimming
+    # array encoding with FEW fields at HIGH indices: the array header is sized by the highest present index, not by the field count
+    S.append(t_st([F(0, t_int("u8")), F(23, o8())], enc="a"))
+    S.append(t_st([F(1, o8()), F(22, o8()), F(24, o8())]))
+    S.append(t_st([F(0, o8()), F(255, t_int("u8"))], enc="a"))
+    S.append(t_st([F(3, t_int("u16")), F(256, o8()), F(30, o8(), tag=5)]))
+    S.append(t_en([Variant(0, "n", [F(0, t_int("u8")), F(25, o8())]), Variant(1, "p", [F(23, t_int("u8"))], enc="a")], enc="a"))
     S.append(t_st([F(0, o8(), tag=5), F(1, t_int("u8"))]))                     # K3 shape
     S.append(t_st([F(0, o8(), tag=5), F(1, o8(), tag=6), F(4, t_int("u8"), tag=7)], enc="m", tag=100))
     S.append(t_st([], shape="u")); S.append(t_st([], shape="u", enc="m", tag=3)); S.append(t_st([], shape="n")); S.append(t_st([], shape="p"))
